@@ -41,7 +41,7 @@ func genS1(t *rapid.T, prop string, profs []*ir.Profile, adversarial bool) *Case
 
 func s1Check(prop string, oracles ...func(string, *View) []Violation) func(c *Case, r *harness.Result) []Violation {
 	return func(c *Case, r *harness.Result) []Violation {
-		if r.PrepareErr != "" && c.Program.DefaultM != "" && strings.Contains(r.PrepareErr, "default") {
+		if r.PrepareErr != "" && (c.Program.DefaultM != "" || c.Program.EnumDefault != "") && strings.Contains(r.PrepareErr, "default") {
 			return nil // the generated odd default was refused: a verdict, not a crash
 		}
 		if r.PrepareErr != "" {
@@ -139,7 +139,7 @@ func init() {
 	// ---- C04: a step never executes if a prerequisite failed, it is disabled or stopped first ----
 	c04 := []*ir.Profile{
 		{Name: "c04-failing", MinSteps: 2, MaxSteps: 6, Durs: someDurs, Modes: allBad, PBad: 45, PDeployFail: 25, PWaitFor: 60, PErrPathRef: 20, MaxOutputs: 3, ErrOutput: true},
-		{Name: "c04-disabled", PStopFalse: 15, PLiteralFalse: 30, MinSteps: 2, MaxSteps: 5, Durs: someDurs, Modes: []string{"err"}, PBad: 20, PDisabled: 70, PWaitFor: 50, MaxOutputs: 3, ErrOutput: true, PErrPathRef: 30},
+		{Name: "c04-disabled", GuardFaults: 15, PStopFalse: 15, PLiteralFalse: 30, MinSteps: 2, MaxSteps: 5, Durs: someDurs, Modes: []string{"err"}, PBad: 20, PDisabled: 70, PWaitFor: 50, MaxOutputs: 3, ErrOutput: true, PErrPathRef: 30},
 	}
 	c04 = append(c04, &ir.Profile{Name: "c04-stop-before-start", MinSteps: 0, MaxSteps: 2, Durs: []int64{0, 5}, StopBeforeStart: true})
 	register(&PropDef{ID: "C04",
@@ -185,7 +185,12 @@ func init() {
 			if rapid.IntRange(0, 9).Draw(t, "odd_default") == 0 {
 				// a declared default that does not fit its field: refused at preparation or at the run, with
 				// an error either way
-				c.Program.DefaultM = rapid.SampledFrom([]string{"abc", "'true'", "'1.5'", "'null'", "'[1]'", "'{'", "1e2", "'\"7\"'"}).Draw(t, "odd_default_text")
+				if rapid.IntRange(0, 2).Draw(t, "odd_default_on_enum") == 0 {
+					// an enumeration of strings: its default is JSON too (an unquoted word is not)
+					c.Program.EnumDefault = rapid.SampledFrom([]string{"low", "'\"low\"'", "'\"nosuch\"'", "'7'", "high"}).Draw(t, "enum_default_text")
+				} else {
+					c.Program.DefaultM = rapid.SampledFrom([]string{"abc", "'true'", "'1.5'", "'null'", "'[1]'", "'{'", "1e2", "'\"7\"'"}).Draw(t, "odd_default_text")
+				}
 				if rapid.Bool().Draw(t, "default_used") {
 					delete(c.Doc, "m")
 					for i := range c.Clients {
@@ -205,6 +210,7 @@ func init() {
 		{Name: "c08-engine-outputs", StageRefs: 30, PSimple: 40, PluginArith: true, StructRefs: true, MinSteps: 1, MaxSteps: 4, Durs: []int64{0, 5, 50}, Modes: allBad, PBad: 60, PDeployFail: 30, PDisabled: 40, ErrOutput: true, MaxOutputs: 3, PErrPathRef: 50, PWaitFor: 20},
 		{Name: "c08-stage-objects", MinSteps: 2, MaxSteps: 3, Durs: []int64{0, 5}, Modes: []string{"err"}, PBad: 45, PSimple: 70, StageRefs: 80, PDisabled: 15, MaxOutputs: 1},
 		{Name: "c08-loops", ItemsFromStep: 30, MinSteps: 1, MaxSteps: 3, Durs: []int64{0, 5}, Foreach: 70, Modes: []string{"err", "alt"}, PBad: 40, ErrOutput: true, MaxOutputs: 2},
+		{Name: "c08-tags", Tags: true, MinSteps: 2, MaxSteps: 4, Durs: []int64{0, 5}, Modes: []string{"err"}, PBad: 25, PDisabled: 30, MaxOutputs: 1},
 		{Name: "c08-plain", HeteroList: 12, PluginArith: true, MinSteps: 1, MaxSteps: 5, Durs: someDurs, PWaitFor: 40, DeepExpr: true, MaxOutputs: 2},
 	}
 	register(&PropDef{ID: "C08",
